@@ -1,6 +1,7 @@
 """C13 — playback timing follows the tempo map."""
 from fractions import Fraction
 
+from .. import envprobe
 from ..common import chunks, generic_replay, pool_map
 
 RULE = ('files: ticks_per_beat in {1,2,96,480,32767,random}, 1..3 tracks, 0..14 events per track, 0..6 tempo changes at '
@@ -376,6 +377,7 @@ def run(ck):
             ck.oracle_fail({'units': list(c)}, why)
     ck.evaluations += len(ucases)
     ck.hist['unit_conversions'] = len(ucases)
+    envprobe.check(ck, ['length', 'iter'])
     return ck.finish(RULE, assumptions=[
         'the implementation computes in binary floats; each float is compared with the model\'s exact rational within '
         '8(n+2)*2^-53*|x| + 1e-9',
@@ -384,6 +386,8 @@ def run(ck):
 
 
 def oracle(case):
+    if 'environment' in case:
+        return envprobe.oracle(case)
     if 'units' in case:
         r = _units_chunk([tuple(case['units'])])
         return r[0][1] if r else None
